@@ -9,7 +9,7 @@ PROPS = [json.loads(l)["id"] for l in open(os.path.join(HERE, "properties.jsonl"
 CHECKS = {
  "C01": ("model_checking",
          "bounded-exhaustive small-scope enumeration of (message type, value, construction route) states with encode/decode/re-encode edges executed on the real codec",
-         "All single-unit message types (every field kind x cardinality) with full boundary alphabets (incl. -0.0, non-UTC datetimes, numeric-looking string keys, lists of 130 / 17000 elements, maps of 130 entries, nesting depth 8), also declared with PEP 604 annotations, all unordered pairs of units with reduced alphabets and a recursive type to depth 2/3, each built by 4 routes (plus fresh-instance routes for empty messages in optional/oneof/repeated/map positions and a 'lazy' route that only reads sub-messages and never assigns them back) and pushed through bytes/parse/bytes; equality, oneof selection, None-ness, nested presence and byte stability are checked on every case. Exhaustive within the stated alphabets, silent about values outside them.",
+         "All single-unit message types (every field kind x cardinality) with full boundary alphabets (incl. -0.0, non-UTC datetimes, numeric-looking string keys, hand-written classes that keep the .proto spelling as attribute name, lists of 130 / 17000 elements, maps of 130 entries, nesting depth 8), also declared with PEP 604 annotations, all unordered pairs of units with reduced alphabets and a recursive type to depth 2/3, each built by 4 routes (plus fresh-instance routes for empty messages in optional/oneof/repeated/map positions and a 'lazy' route that only reads sub-messages and never assigns them back) and pushed through bytes/parse/bytes; equality, oneof selection, None-ness, nested presence and byte stability are checked on every case. Exhaustive within the stated alphabets, silent about values outside them.",
          "trusts the abstract value model in vf/core/absval.py (cross-checked on every case against google.protobuf) and the value alphabets being branch-complete for the per-field interpreter",
          "DESIGN.md §4 C01"),
  "C02": ("model_checking",
@@ -34,7 +34,7 @@ CHECKS = {
          "DESIGN.md §4 C08"),
  "C10": ("fault_enumeration",
          "exhaustive enumeration of message sequences (length <=3 / <=4 over an 8-message alphabet) x reader schema x every cut point of the delimited stream x every schedule of <=2 short read() answers, replayed on the real dump/load",
-         "Every sequence is written with dump(SIZE_DELIMITED), compared with the wire model's and the reference's length-prefixed framing, read by the reference, and read back with load(SIZE_DELIMITED) at every cut point 0..len: messages wholly before the cut must be returned intact with the stream positioned at their boundary, and a load that returns must return exactly the written message. The uncut stream is also served by a reader that answers any <=2 of the multi-byte read / peek calls short (1 byte / all but one byte), by real io.BufferedReader objects of buffer size 1..13, by an io.RawIOBase object and by an io.FileIO on a pipe: every message must still be read back and nothing beyond it consumed.",
+         "Every sequence is written with dump(SIZE_DELIMITED), compared with the wire model's and the reference's length-prefixed framing, read by the reference, and read back with load(SIZE_DELIMITED) at every cut point 0..len: messages wholly before the cut must be returned intact with the stream positioned at their boundary, and a load that returns must return exactly the written message; the length prefix at every prefix-size boundary (19 sizes up to 2^21+1) must equal the reference framing. The uncut stream is also served by a reader that answers any <=2 of the multi-byte read / peek calls short (1 byte / all but one byte), by real io.BufferedReader objects of buffer size 1..13, by an io.RawIOBase object and by an io.FileIO on a pipe: every message must still be read back and nothing beyond it consumed.",
          "trusts google.protobuf.proto.serialize/parse_length_prefixed as the framing reference",
          "DESIGN.md §4 C10"),
  "C17": ("fault_enumeration",
